@@ -1,4 +1,602 @@
 import EaModel.Tasks
+/-!
+# C11 — sequential task managers: one at a time, in order, nothing lost
+
+Theorems about the task-manager model for the three sequential managers, for every finite list of harness
+operations (submissions from outside, from inside the running task and from a listener the finishing task
+wakes — i.e. also in the window between the completion of a task and its done callback; completions,
+failures, cancellations), every queue bound and policy and every key assignment.
+-/
 namespace Ea.C11
-theorem placeholder : True := trivial
+
+def runT (s : TSt) (ops : List TOp) : TSt := ops.foldl tstep s
+
+def IsSeq : MgrKind → Prop
+  | .sequential | .limitingSeq _ _ | .dedup => True
+  | _ => False
+
+/-- the done callbacks that are scheduled -/
+def doneCbs : List Ready → List Nat
+  | [] => []
+  | .doneCb t :: rest => t :: doneCbs rest
+  | _ :: rest => doneCbs rest
+
+theorem doneCbs_append (a b : List Ready) : doneCbs (a ++ b) = doneCbs a ++ doneCbs b := by
+  induction a with
+  | nil => rfl
+  | cons r rest ih => cases r <;> simp [doneCbs, ih]
+
+/-- the invariant of a sequential manager:
+* every task whose done callback has not run yet is `self.task` — so there is at most one such task;
+* a scheduled done callback belongs to a finished task whose callback has not run, and is scheduled once. -/
+structure SeqInv (s : TSt) : Prop where
+  seq : IsSeq s.kind
+  one : ∀ t, t < s.tasks.length → (s.task t).delivered = false → s.cur = some t
+  cbs : ∀ t ∈ doneCbs s.ready, t < s.tasks.length ∧ (s.task t).status = .done ∧ (s.task t).delivered = false
+  nodup : (doneCbs s.ready).Nodup
+  -- a finished task that was not delivered has its callback scheduled (so `self.task` is released)
+  pend : ∀ t, t < s.tasks.length → (s.task t).status = .done → (s.task t).delivered = false → t ∈ doneCbs s.ready
+  -- only finished tasks are delivered
+  deliv : ∀ t, t < s.tasks.length → (s.task t).delivered = true → (s.task t).status = .done
+
+theorem task_old {s s' : TSt} {x : Task} (h : s'.tasks = s.tasks ++ [x]) {t : Nat} (ht : t < s.tasks.length) :
+    s'.task t = s.task t := by
+  simp [TSt.task, h, List.getD_eq_getElem?_getD, List.getElem?_append_left ht]
+
+theorem task_new {s s' : TSt} {x : Task} (h : s'.tasks = s.tasks ++ [x]) : s'.task s.tasks.length = x := by
+  simp [TSt.task, h, List.getD_eq_getElem?_getD]
+
+theorem task_same {s s' : TSt} (h : s'.tasks = s.tasks) (t : Nat) : s'.task t = s.task t := by
+  simp [TSt.task, h]
+
+/-- all tasks delivered and `self.task` empty: the state in which the next coroutine may be started -/
+def Idle (s : TSt) : Prop := s.cur = none ∧ ∀ t, t < s.tasks.length → (s.task t).delivered = true
+
+theorem startNext_inv (s : TSt) (c : Nat) (rest : List (Nat × Nat)) (h : SeqInv s) (hi : Idle s) :
+    SeqInv (startNext s c rest) := by
+  have ht : (startNext s c rest).tasks = s.tasks ++ [{ coro := c }] := rfl
+  have hl : (startNext s c rest).tasks.length = s.tasks.length + 1 := by rw [ht]; simp
+  have hr : doneCbs (startNext s c rest).ready = doneCbs s.ready := by
+    show doneCbs (s.ready ++ [Ready.step s.tasks.length]) = _
+    simp [doneCbs_append, doneCbs]
+  refine ⟨h.seq, ?_, ?_, by rw [hr]; exact h.nodup, ?_, ?_⟩
+  rotate_left 3
+  · intro t htl hd
+    rw [hl] at htl
+    by_cases hlt : t < s.tasks.length
+    · rw [task_old ht hlt] at hd ⊢; exact h.deliv t hlt hd
+    · have : t = s.tasks.length := by omega
+      subst this
+      rw [task_new ht] at hd; cases hd
+  · intro t htl hd
+    rw [hl] at htl
+    by_cases hlt : t < s.tasks.length
+    · rw [task_old ht hlt, hi.2 t hlt] at hd; cases hd
+    · have : t = s.tasks.length := by omega
+      subst this; rfl
+  · intro t htm
+    rw [hr] at htm
+    obtain ⟨a, b, c'⟩ := h.cbs t htm
+    exact ⟨by rw [hl]; omega, by rw [task_old ht a]; exact b, by rw [task_old ht a]; exact c'⟩
+  · intro t htl hst hd
+    rw [hl] at htl
+    by_cases hlt : t < s.tasks.length
+    · rw [task_old ht hlt, hi.2 t hlt] at hd; cases hd
+    · have : t = s.tasks.length := by omega
+      subst this
+      rw [task_new ht] at hst; cases hst
+
+theorem clearCur_frame (s : TSt) (done : Option Nat) :
+    (clearCur s done).tasks = s.tasks ∧ (clearCur s done).ready = s.ready ∧ (clearCur s done).kind = s.kind ∧
+    (clearCur s done).queue = s.queue := by
+  unfold clearCur; split <;> simp
+
+/-- `_task_done` keeps the invariant when, after its first line, no task is pending -/
+theorem seqTaskDone_inv (s : TSt) (done : Option Nat) (h : SeqInv s) (hi : Idle (clearCur s done)) :
+    SeqInv (seqTaskDone s done) := by
+  obtain ⟨f1, f2, f3, f4⟩ := clearCur_frame s done
+  have hc : SeqInv (clearCur s done) := by
+    refine ⟨by rw [f3]; exact h.seq, ?_, ?_, by rw [f2]; exact h.nodup, ?_, ?_⟩
+    · intro t ht hd
+      rw [hi.2 t ht] at hd; cases hd
+    · intro t htm
+      rw [f2] at htm
+      obtain ⟨a, b, c⟩ := h.cbs t htm
+      exact ⟨by rw [f1]; exact a, by rw [task_same f1]; exact b, by rw [task_same f1]; exact c⟩
+    · intro t ht hst hd
+      rw [hi.2 t ht] at hd; cases hd
+    · intro t ht hd
+      rw [f1] at ht; rw [task_same f1] at hd ⊢; exact h.deliv t ht hd
+  unfold seqTaskDone
+  split
+  · exact hc
+  · exact startNext_inv _ _ _ hc hi
+
+/-- `_task_start`: nothing happens while a task is pending; otherwise the head of the queue is started -/
+theorem seqTaskStart_inv (s : TSt) (h : SeqInv s) : SeqInv (seqTaskStart s) := by
+  unfold seqTaskStart
+  split
+  · exact h
+  · next hcur =>
+    apply seqTaskDone_inv s none h
+    have hcc : clearCur s none = { s with cur := none } := by simp [clearCur, hcur]
+    rw [hcc]
+    refine ⟨rfl, ?_⟩
+    intro t ht
+    cases hd : (s.task t).delivered with
+    | true => simpa [TSt.task] using hd
+    | false =>
+      have := h.one t ht hd
+      rw [hcur] at this; cases this
+
+/-- changing only the waiting queue and the log keeps the invariant -/
+theorem SeqInv_of_frame {s s' : TSt} (h : SeqInv s) (h1 : s'.tasks = s.tasks) (h2 : s'.ready = s.ready)
+    (h3 : s'.kind = s.kind) (h4 : s'.cur = s.cur) : SeqInv s' := by
+  refine ⟨by rw [h3]; exact h.seq, ?_, ?_, by rw [h2]; exact h.nodup, ?_, ?_⟩
+  · intro t ht hd
+    rw [h1] at ht; rw [task_same h1] at hd; rw [h4]; exact h.one t ht hd
+  · intro t htm
+    rw [h2] at htm
+    obtain ⟨a, b, c⟩ := h.cbs t htm
+    exact ⟨by rw [h1]; exact a, by rw [task_same h1]; exact b, by rw [task_same h1]; exact c⟩
+  · intro t ht hst hd
+    rw [h1] at ht; rw [task_same h1] at hst hd; rw [h2]; exact h.pend t ht hst hd
+  · intro t ht hd
+    rw [h1] at ht; rw [task_same h1] at hd ⊢; exact h.deliv t ht hd
+
+/-- `create_task` of every sequential manager keeps the invariant -/
+theorem submit_inv (s : TSt) (c k : Nat) (h : SeqInv s) : SeqInv (submit s c k) := by
+  have hs := h.seq
+  unfold submit
+  split
+  · exact seqTaskStart_inv _ (SeqInv_of_frame h rfl rfl rfl rfl)
+  · split
+    · split
+      · exact SeqInv_of_frame h rfl rfl rfl rfl
+      · split
+        · exact seqTaskStart_inv _ (SeqInv_of_frame h rfl rfl rfl rfl)
+        · exact seqTaskStart_inv _ (SeqInv_of_frame h rfl rfl rfl rfl)
+      · split
+        · exact seqTaskStart_inv _ (SeqInv_of_frame h rfl rfl rfl rfl)
+        · exact seqTaskStart_inv _ (SeqInv_of_frame h rfl rfl rfl rfl)
+    · exact seqTaskStart_inv _ (SeqInv_of_frame h rfl rfl rfl rfl)
+  · split
+    · exact seqTaskStart_inv _ (SeqInv_of_frame h rfl rfl rfl rfl)
+    · exact seqTaskStart_inv _ (SeqInv_of_frame h rfl rfl rfl rfl)
+  · next hk => rw [hk] at hs; exact hs.elim
+  · next hk => rw [hk] at hs; exact hs.elim
+
+
+theorem submitAll_inv : ∀ (subs : List (Nat × Nat)) (s : TSt), SeqInv s → SeqInv (submitAll s subs)
+  | [], s, h => h
+  | (c, k) :: rest, s, h => by unfold submitAll; exact submitAll_inv rest _ (submit_inv s c k h)
+
+theorem setTask_task (s : TSt) (t : Nat) (x : Task) (t' : Nat) :
+    (s.setTask t x).task t' = if t' = t ∧ t < s.tasks.length then x else s.task t' := by
+  simp only [TSt.setTask, TSt.task, List.getD_eq_getElem?_getD, List.getElem?_set]
+  by_cases h1 : t = t'
+  · subst h1
+    by_cases h2 : t < s.tasks.length
+    · simp [h2]
+    · simp [h2]
+  · have : ¬ (t' = t ∧ t < s.tasks.length) := fun h => h1 h.1.symm
+    simp [h1, this]
+
+theorem setTask_len (s : TSt) (t : Nat) (x : Task) : (s.setTask t x).tasks.length = s.tasks.length := by
+  simp [TSt.setTask]
+
+/-- replacing a task record by one with the same status and delivery flag -/
+theorem SeqInv_setTask_same {s : TSt} (t : Nat) (x : Task) (h : SeqInv s)
+    (h1 : x.status = .done ↔ (s.task t).status = .done) (h2 : x.delivered = (s.task t).delivered) (extra : List Ready)
+    (hex : doneCbs extra = []) :
+    SeqInv { (s.setTask t x) with ready := s.ready ++ extra } := by
+  have hr : doneCbs (s.ready ++ extra) = doneCbs s.ready := by rw [doneCbs_append, hex]; simp
+  have key : ∀ t', (((s.setTask t x).task t').status = .done ↔ (s.task t').status = .done) ∧
+      ((s.setTask t x).task t').delivered = (s.task t').delivered := by
+    intro t'
+    rw [setTask_task]
+    split
+    · next hc => rw [hc.1]; exact ⟨h1, h2⟩
+    · exact ⟨Iff.rfl, rfl⟩
+  have tk : ∀ t', ({ (s.setTask t x) with ready := s.ready ++ extra } : TSt).task t' = (s.setTask t x).task t' :=
+    fun _ => rfl
+  refine ⟨h.seq, ?_, ?_, by show (doneCbs (s.ready ++ extra)).Nodup; rw [hr]; exact h.nodup, ?_, ?_⟩
+  · intro t' ht hd
+    rw [tk, (key t').2] at hd
+    exact h.one t' (by simpa [setTask_len] using ht) hd
+  · intro t' htm
+    have htm' : t' ∈ doneCbs s.ready := by rw [← hr]; exact htm
+    obtain ⟨a, b, c⟩ := h.cbs t' htm'
+    exact ⟨by show t' < (s.setTask t x).tasks.length; rw [setTask_len]; exact a,
+           by rw [tk]; exact (key t').1.2 b, by rw [tk, (key t').2]; exact c⟩
+  · intro t' ht hst hd
+    rw [tk] at hst hd
+    have hst := (key t').1.1 hst
+    rw [(key t').2] at hd
+    show t' ∈ doneCbs (s.ready ++ extra)
+    rw [hr]
+    exact h.pend t' (by simpa [setTask_len] using ht) hst hd
+  · intro t' ht hd
+    rw [tk] at hd ⊢
+    rw [(key t').2] at hd
+    exact (key t').1.2 (h.deliv t' (by simpa [setTask_len] using ht) hd)
+
+theorem cancelTask_inv (s : TSt) (t : Nat) (h : SeqInv s) : SeqInv (s.cancelTask t) := by
+  unfold TSt.cancelTask
+  simp only []
+  split
+  · exact h
+  · have := SeqInv_setTask_same t { s.task t with cancelReq := true } h Iff.rfl rfl [] rfl
+    exact SeqInv_of_frame this rfl (by show s.ready = s.ready ++ []; simp) rfl rfl
+  · split
+    · exact h
+    · exact SeqInv_setTask_same t { s.task t with cancelReq := true } h Iff.rfl rfl [.resumeCancel t] rfl
+
+/-- a task that is not done finishes: its done callback is scheduled, exactly once -/
+theorem finishTask_inv (s : TSt) (t : Nat) (h : SeqInv s) (ht : t < s.tasks.length)
+    (hst : (s.task t).status ≠ .done) : SeqInv (finishTask s t) := by
+  have hnd : (s.task t).delivered = false := by
+    cases hd : (s.task t).delivered with
+    | false => rfl
+    | true => exact absurd (h.deliv t ht hd) hst
+  have hnot : t ∉ doneCbs s.ready := fun hm => hst (h.cbs t hm).2.1
+  have hr : doneCbs (finishTask s t).ready = doneCbs s.ready ++ [t] := by
+    show doneCbs (s.ready ++ [Ready.doneCb t]) = _
+    rw [doneCbs_append]; rfl
+  have tk : ∀ t', (finishTask s t).task t' = if t' = t then { s.task t with status := .done } else s.task t' := by
+    intro t'
+    show (s.setTask t { s.task t with status := .done }).task t' = _
+    rw [setTask_task]
+    by_cases e : t' = t
+    · simp [e, ht]
+    · simp [e]
+  have hl : (finishTask s t).tasks.length = s.tasks.length := setTask_len _ _ _
+  refine ⟨h.seq, ?_, ?_, ?_, ?_, ?_⟩
+  · intro t' ht' hd
+    rw [tk] at hd
+    rw [hl] at ht'
+    show s.cur = some t'
+    split at hd
+    · next e => subst e; exact h.one t' ht hnd
+    · exact h.one t' ht' hd
+  · intro t' htm
+    rw [hr] at htm
+    rw [hl, tk]
+    rcases List.mem_append.1 htm with hm | hm
+    · obtain ⟨a, b, c⟩ := h.cbs t' hm
+      have : t' ≠ t := fun e => hnot (e ▸ hm)
+      simp [this]; exact ⟨a, b, c⟩
+    · simp at hm; subst hm
+      simp; exact ⟨ht, hnd⟩
+  · rw [hr]
+    exact List.nodup_append.2 ⟨h.nodup, by simp, by intro a ha b hb; simp at hb; subst hb; intro e; subst e; exact hnot ha⟩
+  · intro t' ht' hst' hd
+    rw [hl] at ht'
+    rw [tk] at hst' hd
+    rw [hr]
+    by_cases e : t' = t
+    · subst e; simp
+    · simp [e] at hst' hd
+      exact List.mem_append_left _ (h.pend t' ht' hst' hd)
+  · intro t' ht' hd
+    rw [hl] at ht'
+    rw [tk] at hd ⊢
+    by_cases e : t' = t
+    · subst e; simp
+    · simp [e] at hd ⊢; exact h.deliv t' ht' hd
+
+
+theorem lt_of_not_done (s : TSt) (t : Nat) (h : (s.task t).status ≠ .done) : t < s.tasks.length := by
+  by_cases hl : t < s.tasks.length
+  · exact hl
+  · exfalso; apply h
+    simp [TSt.task, List.getD_eq_getElem?_getD, List.getElem?_eq_none (by omega : s.tasks.length ≤ t)]
+
+/-- existing tasks are not touched by a submission to a sequential manager; tasks are only appended -/
+structure Grows (s s' : TSt) : Prop where
+  len : s.tasks.length ≤ s'.tasks.length
+  old : ∀ t, t < s.tasks.length → s'.task t = s.task t
+
+theorem Grows.refl (s : TSt) : Grows s s := ⟨Nat.le_refl _, fun _ _ => rfl⟩
+theorem Grows.trans {a b c : TSt} (h1 : Grows a b) (h2 : Grows b c) : Grows a c :=
+  ⟨Nat.le_trans h1.len h2.len, fun t ht => by rw [h2.old t (Nat.lt_of_lt_of_le ht h1.len), h1.old t ht]⟩
+theorem Grows.of_tasks_eq {s s' : TSt} (h : s'.tasks = s.tasks) : Grows s s' :=
+  ⟨by rw [h]; exact Nat.le_refl _, fun t _ => task_same h t⟩
+
+theorem seqTaskDone_grows (s : TSt) (done : Option Nat) : Grows s (seqTaskDone s done) := by
+  have f1 := (clearCur_frame s done).1
+  unfold seqTaskDone
+  split
+  · exact Grows.of_tasks_eq f1
+  · next c key rest _ =>
+    have ht : (startNext (clearCur s done) c rest).tasks = (clearCur s done).tasks ++ [{ coro := c }] := rfl
+    refine ⟨by rw [ht, f1]; simp, ?_⟩
+    intro t htl
+    rw [task_old ht (by rw [f1]; exact htl), task_same f1]
+
+theorem seqTaskStart_grows (s : TSt) : Grows s (seqTaskStart s) := by
+  unfold seqTaskStart; split
+  · exact Grows.refl s
+  · exact seqTaskDone_grows s none
+
+theorem grows_start {s s1 : TSt} (h : s1.tasks = s.tasks) : Grows s (seqTaskStart s1) :=
+  (Grows.of_tasks_eq h).trans (seqTaskStart_grows s1)
+
+theorem submit_grows (s : TSt) (c k : Nat) (hs : IsSeq s.kind) : Grows s (submit s c k) := by
+  unfold submit
+  split
+  · exact grows_start rfl
+  · split
+    · split
+      · exact Grows.of_tasks_eq rfl
+      · split <;> exact grows_start rfl
+      · split <;> exact grows_start rfl
+    · exact grows_start rfl
+  · split <;> exact grows_start rfl
+  · next hk => rw [hk] at hs; exact hs.elim
+  · next hk => rw [hk] at hs; exact hs.elim
+
+theorem submitAll_grows : ∀ (subs : List (Nat × Nat)) (s : TSt), SeqInv s → Grows s (submitAll s subs)
+  | [], s, _ => Grows.refl s
+  | (c, k) :: rest, s, h => by
+    unfold submitAll
+    exact (submit_grows s c k h.seq).trans (submitAll_grows rest _ (submit_inv s c k h))
+
+/-- taking a ready entry that is not a done callback off the queue keeps the invariant -/
+theorem pop_inv {s : TSt} (r : Ready) (rest : List Ready) (h : SeqInv s) (hr : s.ready = r :: rest)
+    (hnd : ∀ t, r ≠ .doneCb t) : SeqInv { s with ready := rest } := by
+  have e : doneCbs s.ready = doneCbs rest := by
+    rw [hr]; cases r <;> simp [doneCbs]
+    next t => exact absurd rfl (hnd t)
+  refine ⟨h.seq, h.one, ?_, by show (doneCbs rest).Nodup; rw [← e]; exact h.nodup, ?_, h.deliv⟩
+  · intro t ht; exact h.cbs t (by rw [e]; exact ht)
+  · intro t ht hst hd; show t ∈ doneCbs rest; rw [← e]; exact h.pend t ht hst hd
+
+/-- the done callback of the manager: `self.task` is released and the next coroutine is started -/
+theorem doneCb_inv {s : TSt} (t : Nat) (rest : List Ready) (h : SeqInv s) (hr : s.ready = .doneCb t :: rest) :
+    SeqInv (managerDone { s with ready := rest } t) := by
+  have hm : t ∈ doneCbs s.ready := by rw [hr]; simp [doneCbs]
+  obtain ⟨hlt, hst, hnd⟩ := h.cbs t hm
+  have hcur : s.cur = some t := h.one t hlt hnd
+  have hnot : t ∉ doneCbs rest := by
+    have := h.nodup; rw [hr] at this; simp [doneCbs] at this; exact this.1
+  have hcbs : doneCbs s.ready = t :: doneCbs rest := by rw [hr]; simp [doneCbs]
+  -- the state after `delivered := true`
+  generalize hs2 : ({ s with ready := rest } : TSt).setTask t { ({ s with ready := rest } : TSt).task t with delivered := true } = s2
+  have tk : ∀ t', s2.task t' = if t' = t then { s.task t with delivered := true } else s.task t' := by
+    intro t'
+    subst hs2
+    rw [setTask_task]
+    by_cases e : t' = t
+    · subst e
+      have : t' < ({ s with ready := rest } : TSt).tasks.length := hlt
+      simp [this]
+      exact ⟨rfl, rfl, rfl⟩
+    · simp [e]; rfl
+  have hl : s2.tasks.length = s.tasks.length := by subst hs2; exact setTask_len _ _ _
+  have hc2 : s2.cur = some t := by subst hs2; exact hcur
+  have hr2 : s2.ready = rest := by subst hs2; rfl
+  have hk2 : s2.kind = s.kind := by subst hs2; rfl
+  have inv2 : SeqInv s2 := by
+    refine ⟨by rw [hk2]; exact h.seq, ?_, ?_, by rw [hr2]; have := h.nodup; rw [hcbs] at this; exact (List.nodup_cons.1 this).2, ?_, ?_⟩
+    · intro t' ht' hd
+      rw [tk] at hd
+      by_cases e : t' = t
+      · subst e; simp at hd
+      · simp [e] at hd; rw [hc2, ← hcur]; exact h.one t' (by rw [← hl]; exact ht') hd
+    · intro t' htm
+      rw [hr2] at htm
+      have e : t' ≠ t := fun e => hnot (e ▸ htm)
+      obtain ⟨a, b, c⟩ := h.cbs t' (by rw [hcbs]; exact List.mem_cons_of_mem _ htm)
+      rw [tk]; simp [e]; exact ⟨by rw [hl]; exact a, b, c⟩
+    · intro t' ht' hst' hd
+      rw [tk] at hst' hd
+      by_cases e : t' = t
+      · subst e; simp at hd
+      · simp [e] at hst' hd
+        have := h.pend t' (by rw [← hl]; exact ht') hst' hd
+        rw [hcbs] at this
+        rw [hr2]
+        rcases List.mem_cons.1 this with e' | hm'
+        · exact absurd e' e
+        · exact hm'
+    · intro t' ht' hd
+      rw [tk] at hd ⊢
+      by_cases e : t' = t
+      · subst e; simp; exact hst
+      · simp [e] at hd ⊢; exact h.deliv t' (by rw [← hl]; exact ht') hd
+  unfold managerDone
+  simp only []
+  rw [hs2]
+  have hseq := h.seq
+  have : s2.kind = s.kind := hk2
+  have hdone : SeqInv (seqTaskDone s2 (some t)) := by
+    apply seqTaskDone_inv s2 (some t) inv2
+    have hcc : clearCur s2 (some t) = { s2 with cur := none } := by simp [clearCur, hc2]
+    rw [hcc]
+    refine ⟨rfl, ?_⟩
+    intro t' ht'
+    show (s2.task t').delivered = true
+    rw [tk]
+    by_cases e : t' = t
+    · simp [e]
+    · simp [e]
+      cases hd : (s.task t').delivered with
+      | true => rfl
+      | false =>
+        have := h.one t' (by rw [← hl]; exact ht') hd
+        rw [hcur] at this
+        exact absurd (Option.some.inj this).symm e
+  revert hdone
+  cases hk : s2.kind <;> intro hdone
+  · exact hdone
+  · exact hdone
+  · exact hdone
+  · rw [hk2] at hk; rw [hk] at hseq; exact hseq.elim
+  · rw [hk2] at hk; rw [hk] at hseq; exact hseq.elim
+
+theorem emit_inv {s : TSt} (e : TEv) (h : SeqInv s) : SeqInv (s.emit e) := SeqInv_of_frame h rfl rfl rfl rfl
+
+/-- running one ready entry keeps the invariant -/
+theorem runReady_inv {s : TSt} (r : Ready) (rest : List Ready) (h : SeqInv s) (hr : s.ready = r :: rest) :
+    SeqInv (runReady { s with ready := rest } r) := by
+  cases r with
+  | doneCb t => exact doneCb_inv t rest h hr
+  | step t =>
+    have h1 := pop_inv _ rest h hr (by intro t'; simp)
+    simp only [runReady]
+    split
+    · exact h1
+    · next hst =>
+      have hst' : (({ s with ready := rest } : TSt).task t).status = .pendingStart := by simpa using hst
+      have hlt : t < ({ s with ready := rest } : TSt).tasks.length := lt_of_not_done _ t (by rw [hst']; simp)
+      split
+      · exact finishTask_inv _ t (emit_inv _ h1) hlt (by show (({ s with ready := rest } : TSt).task t).status ≠ .done; rw [hst']; simp)
+      · have := SeqInv_setTask_same t { ({ s with ready := rest } : TSt).task t with status := .suspended } h1
+          (by rw [hst']; simp) rfl [] rfl
+        exact emit_inv _ (SeqInv_of_frame this rfl (by show rest = rest ++ []; simp) rfl rfl)
+  | resume t fail last =>
+    have h1 := pop_inv _ rest h hr (by intro t'; simp)
+    simp only [runReady]
+    split
+    · exact h1
+    · next hc =>
+      have hst' : (({ s with ready := rest } : TSt).task t).status = .suspended := by
+        have := hc; simp at this; exact this.1
+      have hlt : t < ({ s with ready := rest } : TSt).tasks.length := lt_of_not_done _ t (by rw [hst']; simp)
+      have h2 := submitAll_inv last.inside _ h1
+      have g2 := submitAll_grows last.inside _ h1
+      have hlt2 : t < (submitAll { s with ready := rest } last.inside).tasks.length := Nat.lt_of_lt_of_le hlt g2.len
+      have hst2 : ((submitAll { s with ready := rest } last.inside).task t).status ≠ .done := by
+        rw [g2.old t hlt, hst']; simp
+      apply finishTask_inv _ t
+      · apply emit_inv
+        split
+        · exact h2
+        · refine ⟨h2.seq, h2.one, ?_, ?_, ?_, h2.deliv⟩
+          · intro t' ht'
+            have : doneCbs ((submitAll { s with ready := rest } last.inside).ready ++ [Ready.listener last.listener]) =
+                doneCbs (submitAll { s with ready := rest } last.inside).ready := by simp [doneCbs_append, doneCbs]
+            exact h2.cbs t' (by rw [← this]; exact ht')
+          · show (doneCbs ((submitAll { s with ready := rest } last.inside).ready ++ [Ready.listener last.listener])).Nodup
+            simp [doneCbs_append, doneCbs]; exact h2.nodup
+          · intro t' ht' a b
+            show t' ∈ doneCbs ((submitAll { s with ready := rest } last.inside).ready ++ [Ready.listener last.listener])
+            simp [doneCbs_append, doneCbs]; exact h2.pend t' ht' a b
+      · show t < (if last.listener.isEmpty = true then submitAll { s with ready := rest } last.inside
+            else { submitAll { s with ready := rest } last.inside with
+                   ready := (submitAll { s with ready := rest } last.inside).ready ++ [Ready.listener last.listener] }).tasks.length
+        split <;> exact hlt2
+      · show ((if last.listener.isEmpty = true then submitAll { s with ready := rest } last.inside
+            else { submitAll { s with ready := rest } last.inside with
+                   ready := (submitAll { s with ready := rest } last.inside).ready ++ [Ready.listener last.listener] }).task t).status ≠ .done
+        split <;> exact hst2
+  | resumeCancel t =>
+    have h1 := pop_inv _ rest h hr (by intro t'; simp)
+    simp only [runReady]
+    split
+    · exact h1
+    · next hst =>
+      have hst' : (({ s with ready := rest } : TSt).task t).status = .suspended := by simpa using hst
+      have hlt : t < ({ s with ready := rest } : TSt).tasks.length := lt_of_not_done _ t (by rw [hst']; simp)
+      exact finishTask_inv _ t (emit_inv _ h1) hlt (by show (({ s with ready := rest } : TSt).task t).status ≠ .done; rw [hst']; simp)
+  | listener subs =>
+    have h1 := pop_inv _ rest h hr (by intro t'; simp)
+    simp only [runReady]
+    exact submitAll_inv subs _ h1
+
+theorem drain_inv : ∀ (n : Nat) (s : TSt), SeqInv s → SeqInv (drain n s)
+  | 0, s, h => h
+  | n + 1, s, h => by
+    unfold drain
+    split
+    · exact h
+    · next r rest hr => exact drain_inv n _ (runReady_inv r rest h hr)
+
+theorem applyOp_inv (s : TSt) (op : TOp) (h : SeqInv s) : SeqInv (applyOp s op) := by
+  cases op with
+  | submit c k => exact submit_inv s c k h
+  | complete t fail last =>
+    simp only [applyOp]
+    split
+    · refine ⟨h.seq, h.one, ?_, ?_, ?_, h.deliv⟩
+      · intro t' ht'
+        exact h.cbs t' (by simpa [doneCbs_append, doneCbs] using ht')
+      · show (doneCbs (s.ready ++ [Ready.resume t fail last])).Nodup
+        simp [doneCbs_append, doneCbs]; exact h.nodup
+      · intro t' ht' a b
+        show t' ∈ doneCbs (s.ready ++ [Ready.resume t fail last])
+        simp [doneCbs_append, doneCbs]; exact h.pend t' ht' a b
+    · exact h
+  | cancel t => exact cancelTask_inv s t h
+
+theorem tstep_inv (s : TSt) (op : TOp) (h : SeqInv s) : SeqInv (tstep s op) :=
+  drain_inv _ _ (applyOp_inv s op h)
+
+theorem init_inv (k : MgrKind) (hk : IsSeq k) : SeqInv { kind := k } := by
+  refine ⟨hk, ?_, ?_, by simp [doneCbs], ?_, ?_⟩
+  · intro t ht; simp at ht
+  · intro t ht; simp [doneCbs] at ht
+  · intro t ht; simp at ht
+  · intro t ht; simp at ht
+
+/-- the invariant holds in every state any finite history of operations can reach -/
+theorem reachable_inv (k : MgrKind) (hk : IsSeq k) (ops : List TOp) : SeqInv (runT { kind := k } ops) := by
+  suffices h : ∀ s, SeqInv s → SeqInv (runT s ops) from h _ (init_inv k hk)
+  induction ops with
+  | nil => intro s h; exact h
+  | cons op ops ih => intro s h; exact ih _ (tstep_inv s op h)
+
+/-- **one at a time**: in every reachable state of a sequential manager at most one task exists whose done
+callback has not run, and it is the manager's `self.task` -/
+theorem at_most_one (k : MgrKind) (hk : IsSeq k) (ops : List TOp) (t1 t2 : Nat) :
+    let s := runT { kind := k } ops
+    t1 < s.tasks.length → t2 < s.tasks.length →
+    (s.task t1).delivered = false → (s.task t2).delivered = false → t1 = t2 ∧ s.cur = some t1 := by
+  intro s h1 h2 d1 d2
+  have inv := reachable_inv k hk ops
+  have c1 := inv.one t1 h1 d1
+  have c2 := inv.one t2 h2 d2
+  rw [c1] at c2
+  exact ⟨Option.some.inj c2, c1⟩
+
+/-- a coroutine is only started by taking it from the head of the queue: start order is queue order -/
+theorem fifo (s : TSt) (done : Option Nat) (c k : Nat) (rest : List (Nat × Nat))
+    (hq : (clearCur s done).queue = (c, k) :: rest) :
+    (seqTaskDone s done).queue = rest ∧
+    (seqTaskDone s done).tasks = s.tasks ++ [{ coro := c }] := by
+  unfold seqTaskDone
+  rw [hq]
+  exact ⟨rfl, by show (clearCur s done).tasks ++ _ = _; rw [(clearCur_frame s done).1]⟩
+
+/-- de-duplication: after a submission at most one waiting coroutine carries the submitted key — the new one -/
+theorem dedup_newest (s : TSt) (c k : Nat) (hk : s.kind = .dedup) (hcur : s.cur ≠ none) :
+    (submit s c k).queue = s.queue.filter (·.2 ≠ k) ++ [(c, k)] := by
+  unfold submit
+  rw [hk]
+  simp only []
+  obtain ⟨t, ht⟩ : ∃ t, s.cur = some t := by
+    cases hc : s.cur with
+    | none => exact absurd hc hcur
+    | some t => exact ⟨t, rfl⟩
+  have hst : ∀ s1 : TSt, s1.cur = some t → seqTaskStart s1 = s1 := by
+    intro s1 h1; simp [seqTaskStart, h1]
+  split
+  · rw [hst _ (by show s.cur = some t; exact ht)]
+  · next hnone =>
+    rw [hst _ (by show s.cur = some t; exact ht)]
+    have : ∀ x ∈ s.queue, ¬ (x.2 = k) := by
+      intro x hx e
+      have := List.find?_eq_none.1 hnone x hx
+      simp [e] at this
+    show s.queue ++ [(c, k)] = _
+    rw [List.filter_eq_self.2 (by intro x hx; simpa using this x hx)]
+
+-- non-vacuity (executable checks): three submissions run strictly one after the other, in order
+#guard ((runT { kind := .sequential } [.submit 1 0, .submit 2 0, .submit 3 0, .complete 0 false {}, .complete 1 false {}]).log.reverse
+  == [.enter 1, .exit 1, .enter 2, .exit 2, .enter 3])
+-- the window: the finishing task wakes a listener that submits two coroutines; they still run one after the other
+#guard ((runT { kind := .sequential } [.submit 1 0, .complete 0 false { listener := [(2, 0), (3, 0)] }, .complete 1 false {}]).log.reverse
+  == [.enter 1, .exit 1, .enter 2, .exit 2, .enter 3])
+
 end Ea.C11
